@@ -74,8 +74,8 @@ def handle (j : J) : J :=
     let env : Env := { rankOf := Gen.rankOf, qual := fun c => strOfJ (quals.getD c "?") }
     .obj [("eq", matrix vals fun x y => .bool (eq x y)),
           ("ne", matrix vals fun x y => .bool (ne x y)),
-          ("lt", matrix vals fun x y => resToJ (lt env x y)),
-          ("gt", matrix vals fun x y => resToJ (gt env x y)),
+          ("lt", matrix vals fun x y => resToJ (symLt env x y)),
+          ("gt", matrix vals fun x y => resToJ (symGt env x y)),
           ("hash", .arr (vals.map fun x => match hashTerm x with
                                             | .ok t => termToJ t
                                             | .error e => errToJ e))]
